@@ -25,7 +25,13 @@ Inductive case :=
 | KLive (unlock lock : bytes) (flags : N) (ob : obs) (sharing : list (list triple * list triple))
 (** the same with zero-length items reported where they lie (model/HeapViews.v): an item of length 0 that has
     capacity left is a view of a backing array too, and the harness says of which and where *)
-| KLiveZ (unlock lock : bytes) (flags : N) (ob : obs) (sharing : list (list triple * list triple)).
+| KLiveZ (unlock lock : bytes) (flags : N) (ob : obs) (sharing : list (list triple * list triple))
+(** a run RESUMED from the frame a debugger was handed before step number [skip] (interpreter.WithState, over the same
+    scripts): [k] carries the program and what the resumed run showed - verdict, number of steps, hash of its
+    snapshots.  It must be the rest of the model's run of the whole program: same verdict, the model's snapshots
+    without the first [skip].  (The frame's stacks are the caller's data: a resumed run that works in the caller's
+    storage, or a frame that was written to by an earlier run resumed from it, shows other stacks.) *)
+| KResume (k : C05.case) (skip : nat).
 
 Definition live_input (unlock lock : bytes) (flags : N) : exec_input :=
   mkExecInput unlock lock flags false false 0 0 0.
@@ -50,6 +56,15 @@ Definition check (k : case) : bool :=
           | _, _ => false
           end
       | HResStuck => false
+      end
+  | KResume k skip =>
+      let '(v, tr) := run_case no_sigops k in
+      let rest := skipn skip tr in
+      match v, k_obs k with
+      | VOk, ObsOk | VErr, ObsErr | VPanic, ObsPanic =>
+          (skip <=? length tr)%nat && (N.of_nat (length rest) =? k_steps k)%N &&
+          String.eqb (hex_of (sha256 (ser_trace rest))) (k_trace_sha k)
+      | _, _ => false
       end
   end.
 
